@@ -41,6 +41,7 @@ struct Action {
     long long timeout_ms = -1;   // s_read
     // net_kill: error index; spurious_ack: packet to inject
     int ec = 0; ref::Packet pkt; std::string bytes;
+    int fit_delta = -1;              // broker_publish: size the PUBLISH to (client's Maximum Packet Size - fit_delta) bytes
     bool expect_immediate = false;   // the reference model says this request fails validation
     int expect_ec = 0;               // ... with this boost::mqtt5::client::error value (0 = not specified)
     std::function<void()> fn;        // custom
